@@ -10,10 +10,12 @@ pub mod c06;
 pub mod c07;
 pub mod c08;
 pub mod c09;
+pub mod c15;
 pub mod c16;
 pub mod c17;
 pub mod c18;
 pub mod c19;
+pub mod c20;
 pub mod common;
 
 pub struct Prop {
@@ -34,10 +36,12 @@ pub fn all() -> Vec<Prop> {
         Prop { id: "C07", level: "exploration", run: c07::run, replay: c07::replay },
         Prop { id: "C08", level: "exploration", run: c08::run, replay: c08::replay },
         Prop { id: "C09", level: "exploration", run: c09::run, replay: c09::replay },
+        Prop { id: "C15", level: "exploration", run: c15::run, replay: c15::replay },
         Prop { id: "C16", level: "fault_enumeration", run: c16::run, replay: c16::replay },
         Prop { id: "C17", level: "exploration", run: c17::run, replay: c17::replay },
         Prop { id: "C18", level: "exploration", run: c18::run, replay: c18::replay },
         Prop { id: "C19", level: "exploration", run: c19::run, replay: c19::replay },
+        Prop { id: "C20", level: "exploration", run: c20::run, replay: c20::replay },
     ]
 }
 
